@@ -672,6 +672,28 @@ pub fn random_run<W: Write>(tr: &mut Trace<W>, cfg: Cfg, prof: &Profile, seed: u
             }
             continue;
         }
+        if prof.pre && prof.rel && prof.vis && rng.chance(1, 12) {
+            // a client learns of a server entity through a reference first (its parent is still hidden from it);
+            // the mapping to a pre-spawned entity arrives together with the entity itself
+            let c = rng.pick(&clients).clone();
+            let free: Vec<String> = ents.iter().filter(|x| sim.op_enabled("Spawn", &json!({"e": x}))).cloned().collect();
+            let ci = sim.ci(&c);
+            if free.len() >= 2 && sim.clients[ci].entity.is_some() {
+                let (par, child) = (free[0].clone(), free[1].clone());
+                let p = format!("p{}", 1 + rng.below(2));
+                tr.step(&mut sim, "Spawn", json!({"e": par, "comps": ["A"], "repl": true}));
+                tr.step(&mut sim, "SetVis", json!({"c": c, "e": par, "v": false}));
+                tr.step(&mut sim, "Spawn", json!({"e": child, "comps": ["A"], "repl": true}));
+                tr.step(&mut sim, "Relate", json!({"e": child, "p": par}));
+                tr.sync(&mut sim);
+                tr.step(&mut sim, "Prespawn", json!({"c": c, "p": p}));
+                if tr.step(&mut sim, "MapPre", json!({"c": c, "e": par, "p": p})) {
+                    tr.step(&mut sim, "SetVis", json!({"c": c, "e": par, "v": true}));
+                    tr.sync(&mut sim);
+                }
+                continue;
+            }
+        }
         if prof.pre && rng.chance(1, 5) {
             // pre-spawned client entities and their mapping
             let c = rng.pick(&clients).clone();
